@@ -406,7 +406,7 @@ pub const KEYWORDS: [&str; 52] = [
     "as", "break", "const", "continue", "crate", "else", "enum", "extern", "false", "fn", "for", "if", "impl", "in", "let", "loop", "match", "mod", "move", "mut", "pub", "ref", "return", "self", "Self", "static", "struct", "super", "trait", "true", "type", "unsafe", "use", "where", "while", "async", "await", "dyn", "try", "_", "abstract", "become", "box", "do", "final", "macro", "override", "priv", "typeof", "unsized", "virtual", "yield",
 ];
 
-pub const FIELD_POOL: [&str; 18] = ["r#type", "r#match", "alpha", "beta", "gamma", "lorem", "ipsum", "dolor", "my_field", "another_one", "x1", "long_name_here", "volume", "level", "mode", "kind", "first_item", "speed"];
+pub const FIELD_POOL: [&str; 20] = ["r#type", "r#match", "_hidden_flag", "__raw_mode", "alpha", "beta", "gamma", "lorem", "ipsum", "dolor", "my_field", "another_one", "x1", "long_name_here", "volume", "level", "mode", "kind", "first_item", "speed"];
 pub const VARIANT_POOL: [&str; 12] = ["r#Match", "r#Type", "Alpha", "Beta", "Gamma", "LoremIpsum", "Dolor", "Quiet", "Loud", "VeryLoud", "Custom", "Other"];
 
 #[derive(Clone, Debug)]
